@@ -73,6 +73,13 @@ def _loop_mutations(loop, refusals=None):
         if isinstance(st, ast.AugAssign) and isinstance(st.op, ast.Add) and isinstance(st.target, ast.Subscript) and isinstance(st.target.value, ast.Name) and U(st.value) == "1":
             return ("counter", st.target.value.id, st.target.slice)
         if isinstance(st, ast.Assign) and len(st.targets) == 1 and isinstance(st.targets[0], ast.Subscript) and isinstance(st.targets[0].value, ast.Name):
+            # d[K] = d.get(K, 0) + 1: the counting idiom on a plain dict
+            d_, k_, v_ = st.targets[0].value.id, st.targets[0].slice, st.value
+            if isinstance(v_, ast.BinOp) and isinstance(v_.op, ast.Add):
+                for a_, b_ in ((v_.left, v_.right), (v_.right, v_.left)):
+                    if U(b_) == "1" and isinstance(a_, ast.Call) and isinstance(a_.func, ast.Attribute) and a_.func.attr == "get" and U(a_.func.value) == d_ \
+                            and len(a_.args) == 2 and not a_.keywords and U(a_.args[0]) == U(k_) and U(a_.args[1]) == "0":
+                        return ("counter", d_, k_)
             return ("dict", st.targets[0].value.id, (st.targets[0].slice, st.value))
         if isinstance(st, ast.AugAssign) and isinstance(st.op, ast.Add) and isinstance(st.target, ast.Name):
             return ("sum", st.target.id, st.value)
@@ -327,6 +334,8 @@ def paths(fnode, max_paths=64, stop_at_raise=True):
                         cur = env.get(name)
                         ek = _empty_kind(cur) if cur is not None else None
                         if ek != kind:
+                            if kind == "counter" and ek == "dict":
+                                continue                 # a plain dict filled by `d[k] = d.get(k, 0) + 1`: the same table of counts
                             if kind == "list" and isinstance(cur, (ast.ListComp, ast.BinOp)):
                                 grown.add(name)          # a second loop appending to the same list: concatenation
                                 continue
